@@ -399,6 +399,11 @@ def judge(sc, st, res, tr, cmd_metas, V, want):
                     rep('C06', 'C06/shown-nonmatch', 'connection-unknown', 'selecting unknown connection %r gave no error' % meta.get('to'))
             elif t == 'list':
                 judge_list(seg, meta, fstate, selected, recorded, names, t0, V, rep, opened)
+            if hasattr(V, 'states'):
+                # abstract session state after each command: shape of the filter and breakpoint models, selection, history size class
+                def shape(m):
+                    return m.const or (len(m.alts), len(m.excl), m.star, bool(m.absorbed))
+                V.states.add(repr((shape(fstate), shape(bstate), selected is not None, min(len(recorded), 3), len(opened))))
     # C06 not-recorded: every message is in Connection.messages() in order
     for wc, nm in names.items():
         truth = st.world.conns[wc].msgs
